@@ -15,6 +15,7 @@ RULES = {
     'C16.R5': 'in Solver.__init__ the option parse precedes import_model; nothing is solved in __init__',
     'C16.R6': 'extras retention: list-valued flags give (criterion, arguments[1:]), scalar flags (criterion, None); consumers unpack in that order',
     'C16.R7': "each criterion method appends its '- optimisation:' line before its first solve (printed lines = executed prefix, in order)",
+    'C16.R9': 'only the prefix up to the first non-Optimal solve is run and reported: solve/check typestate (shared with C14.R1) on sequences of criteria',
     'C16.R8': 'criterion tables agree: enum members <-> tuple rows <-> argparse dests (documented flags) <-> dispatch branches',
 }
 
@@ -221,6 +222,11 @@ def run(rep, repo, tier):
 
     # ---- R6 consumers + R7 info lines ------------------------------------------------------------------------
     check_info_lines(rep, repo, tier)
+    # ---- R9 ----------------------------------------------------------------------------------------------------
+    from .c14 import typestate_check
+    cfgs = [(False, False, [lpfacts.crit_config(a, 0), lpfacts.crit_config(b)]) for a in ('GENEROUS', 'GREEDY') for b in ('MAXSIZE', 'MINCOST')]
+    cfgs += [(False, False, [lpfacts.crit_config('MAXSIZE'), lpfacts.crit_config('LOADSUMBAL'), lpfacts.crit_config('GENEROUS', 1)])]
+    typestate_check(rep, repo, 'C16.R9', cfgs)
 
 
 def check_helper(rep, repo, helper, N):
